@@ -2326,6 +2326,90 @@ run_keygen(long long cases)
 	}
 }
 
+/* a generator that first returns scripted candidates, then falls back to a real HMAC_DRBG */
+typedef struct {
+	const br_prng_class *vtable;
+	unsigned char cand[6][80];
+	int n, pos, calls;
+	size_t len;
+	br_hmac_drbg_context fb;
+} script_rng;
+
+static void sr_init(const br_prng_class **c, const void *p, const void *s, size_t l) { (void)c; (void)p; (void)s; (void)l; }
+static void sr_update(const br_prng_class **c, const void *s, size_t l) { (void)c; (void)s; (void)l; }
+static void
+sr_generate(const br_prng_class **c, void *out, size_t len)
+{
+	script_rng *sr = (script_rng *)(void *)c;
+	sr->calls ++;
+	if (sr->pos < sr->n && len == sr->len) memcpy(out, sr->cand[sr->pos ++], len);
+	else br_hmac_drbg_generate(&sr->fb, out, len);
+}
+static const br_prng_class script_rng_vtable = { sizeof(script_rng), sr_init, sr_generate, sr_update };
+
+/*
+ * Rejection sampling of br_ec_keygen under scripted generator outputs: candidates that are zero, equal to the
+ * order, above it, all-ones (within the bit length of the order), in every order of up to three rejected
+ * candidates before a valid one: the key returned must be the first candidate in [1, n-1].
+ */
+static char ks_case[300];
+
+static void
+run_keygen_scripted(void)
+{
+	int j, ci;
+	for (j = 0; j < nimpl; j ++) {
+		const impl_t *im = &impls[j];
+		if ((j % g_nworkers) != g_worker) continue;
+		for (ci = 0; ci < 3; ci ++) {
+			curve_t *c = &curves[ci];
+			size_t ol = 0, L;
+			const unsigned char *ord;
+			unsigned char bad[4][80], good[3][80];
+			unsigned topmask;
+			int a, b2, d, g, nbad;
+			if (!impl_supports(im->impl, c->id)) continue;
+			ord = im->impl->order(c->id, &ol);
+			L = ol;
+			/* bad candidates: 0, n, n+1 (or n with another low byte), all ones under the top-byte mask */
+			memset(bad[0], 0, L);
+			memcpy(bad[1], ord, L);
+			memcpy(bad[2], ord, L); bad[2][L - 1] = (unsigned char)(bad[2][L - 1] + 1); if (bad[2][L - 1] == 0) bad[2][L - 2] ++;
+			topmask = 0xFF; while ((topmask >> 1) >= ord[0]) topmask >>= 1;
+			memset(bad[3], 0xFF, L); bad[3][0] = (unsigned char)topmask;
+			/* good candidates: 1, n-1, a middle value */
+			memset(good[0], 0, L); good[0][L - 1] = 1;
+			memcpy(good[1], ord, L); good[1][L - 1] = (unsigned char)(good[1][L - 1] - 1);
+			memcpy(good[2], ord, L); good[2][0] = 0; good[2][1] ^= 0x5A;
+			for (nbad = 0; nbad <= 3; nbad ++) for (a = 0; a < 4; a ++) for (b2 = 0; b2 < 4; b2 ++) for (d = 0; d < 4; d ++) for (g = 0; g < 3; g ++) {
+				script_rng sr;
+				br_ec_private_key sk;
+				unsigned char kbuf[BR_EC_KBUF_PRIV_MAX_SIZE];
+				size_t kl;
+				int seq[3];
+				if ((nbad < 1 && a) || (nbad < 2 && b2) || (nbad < 3 && d)) continue;
+				seq[0] = a; seq[1] = b2; seq[2] = d;
+				memset(&sr, 0, sizeof sr);
+				sr.vtable = &script_rng_vtable; sr.len = L; sr.n = nbad + 1;
+				{ int q; for (q = 0; q < nbad; q ++) memcpy(sr.cand[q], bad[seq[q]], L); }
+				memcpy(sr.cand[nbad], good[g], L);
+				br_hmac_drbg_init(&sr.fb, &br_sha256_vtable, "scripted", 8);
+				snprintf(ks_case, sizeof ks_case, "seed=%lld keygen-scripted impl=%s curve=%s rejected=%d(%d,%d,%d) then good#%d", g_seed, im->name, c->name, nbad, a, b2, d, g);
+				vf_cur_case = ks_case;
+				memset(kbuf, 0xA5, sizeof kbuf);
+				kl = br_ec_keygen(&sr.vtable, im->impl, &sk, kbuf, c->id);
+				vf_stat("cmp_keygen_scripted", 1);
+				vf_stat("lib_calls", 1);
+				vf_distinct("keygen_script", "%s %d:%d%d%d", c->name, nbad, a, b2, d);
+				if (kl != L || memcmp(kbuf, good[g], L) != 0) {
+					VIOL(mkkey("keygen-rejection-sampling", im, c->name), "br_ec_keygen did not return the first generator output lying in [1, order-1]",
+						"rejected=%d(%d,%d,%d) good#%d len=%zu got=%s generator-calls=%d", nbad, a, b2, d, g, kl, vf_hexs(kbuf, L), sr.calls);
+				}
+			}
+		}
+	}
+}
+
 /* ================================================================== */
 
 static double
@@ -2404,6 +2488,7 @@ main(int argc, char **argv)
 		run_conv(cases);
 	} else if (!strcmp(mode, "keygen")) {
 		run_keygen(cases);
+		run_keygen_scripted();
 	} else if (!strcmp(mode, "time")) {
 		run_time();
 	} else {
